@@ -324,7 +324,8 @@ def _run_model(case, ctx):
         else:
             lo, hi = GM.pressure_window(name, P)
             rng = dict(pressure_range=(hi * 0.01, hi * 0.8), loading_range=(0.05, 2.5))
-        model = GM.make_model(name, P, rmse=round(r.uniform(0, 0.2), 6), temperature=T, **rng)
+        # (a fit error of exactly zero - a perfect fit - is a legitimate value, as is a range that starts at zero)
+        model = GM.make_model(name, P, rmse=0.0 if case["seed"] % 5 == 0 else round(r.uniform(0, 0.2), 6), temperature=T, **rng)
         model.params.update(P)  # (as a fit leaves them: whatever the constructor made of its arguments)
         iso = pygaps.ModelIsotherm(model=model, material=copy.deepcopy(mat), adsorbate=ads_name, temperature=Tst, **units, **copy.deepcopy(meta))
         how = "hand-built"
